@@ -329,6 +329,17 @@ func (p *prover) resolve(v ssa.Value) ssa.Value {
 		// a load of a once-assigned variable (one that a closure captures, so that it lives in a cell) is the value
 		// assigned, when that value belongs to this function
 		if u, ok := v.(*ssa.UnOp); ok && u.Op == token.MUL {
+			// (likewise a once-assigned field of a local struct that only groups values)
+			if fv := localFieldValue(u); fv != nil {
+				if ci, isI := fv.(ssa.Instruction); isI && ci.Parent() == p.fn {
+					v = fv
+					continue
+				}
+				if cp, isP := fv.(*ssa.Parameter); isP && cp.Parent() == p.fn {
+					v = fv
+					continue
+				}
+			}
 			if al, isAl := u.X.(*ssa.Alloc); isAl {
 				if cv := cellValue(al); cv != nil {
 					if ci, isI := cv.(ssa.Instruction); isI && ci.Parent() == p.fn {
@@ -1068,11 +1079,60 @@ func (p *prover) spillOf(al *ssa.Alloc) *ssa.Parameter {
 				}
 			}
 		case *ssa.UnOp, *ssa.DebugRef:
+		case *ssa.MakeClosure:
+			// a closure that captures the copy may read it (whole or by field) but not write it
+			if !closureOnlyReads(x, al, 0) {
+				return nil
+			}
 		default:
 			return nil
 		}
 	}
 	return par
+}
+
+// closureOnlyReads: the closure made by mc uses the captured cell only through loads (of the whole value or of
+// its fields/elements), itself or through closures it makes in turn.
+func closureOnlyReads(mc *ssa.MakeClosure, cell ssa.Value, depth int) bool {
+	g, _ := mc.Fn.(*ssa.Function)
+	if g == nil || depth > 3 {
+		return false
+	}
+	var readOnly func(v ssa.Value, d int) bool
+	readOnly = func(v ssa.Value, d int) bool {
+		if d > 4 {
+			return false
+		}
+		for _, rr := range referrersOf(v) {
+			switch y := rr.(type) {
+			case *ssa.UnOp, *ssa.DebugRef:
+			case *ssa.FieldAddr:
+				if !readOnly(y, d+1) {
+					return false
+				}
+			case *ssa.IndexAddr:
+				if y.X != v || !readOnly(y, d+1) {
+					return false
+				}
+			case *ssa.MakeClosure:
+				if !closureOnlyReads(y, v, depth+1) {
+					return false
+				}
+			default:
+				return false
+			}
+		}
+		return true
+	}
+	for i, b := range mc.Bindings {
+		if b != cell {
+			continue
+		}
+		if i >= len(g.FreeVars) || !readOnly(g.FreeVars[i], 0) {
+			return false
+		}
+	}
+	return true
 }
 
 func isCellLoad(v ssa.Value) bool {
